@@ -1545,6 +1545,11 @@ def bridge_correspondence(what, r, m):
     for k in ("order", "immFields", "defOrder", "accepts"):
         if ms[k] != rs[k]:
             return f"{what}: bridge {k} differs: model {ms[k]} real {rs[k]}"
+    if ms.get("wf") is False:
+        # the class's two views disagree (a name is a Constant for getattr inside StructMeta.__new__ and a Field in
+        # _field_by_name: C16's finding names-mismatch:constant-shadowed-in-diamond): the constructor writes the Constant
+        # through the Field and cannot succeed; outside the bridge's domain (Bridge.wf is a hypothesis of the theorems)
+        return None
     has_inline = '"inline": true' in json.dumps(rs["decl"])
     for i, (rc, mc) in enumerate(zip(r.get("ctor", []), m.get("ctor", []))):
         rr, mr = rc["res"], mc["res"]
